@@ -348,6 +348,8 @@ def selection(run, model, rule="C03.selection", rule_src="C03.selection-source")
                     if value_of(args[0]):
                         if args[1] == ("builtin", "property"):
                             return vkind == "property"
+                        if args[1] == ("attr", ("module", "types"), "FunctionType"):
+                            return vkind in ("function", "static_function")  # what inspect.isfunction tests
                         if args[1][0] == "global" and "SLOT_WRAPPER" in args[1][2]:
                             return vkind == "slot_wrapper"
                         if args[1] == ("builtin", "staticmethod"):
